@@ -17,6 +17,7 @@ CONSTANTS Pipes, MaxMsgs, MaxOps, HopCounts,
 Ctxs == {0, 1}
 VARIABLES
   up, used, open1,
+  closed,      \* nng_socket_close has been called (terminal)
   pclosed,     \* requesters that went away; the socket notices when its receive on that connection is outstanding
   hold,        \* hold[p]: request received on p and not yet taken by a context: <<>> or <<[bt, m]>>
   recvp,       \* pipes holding a request, in arrival order
@@ -31,17 +32,17 @@ VARIABLES
   sentTo,      \* ghost: replies put on the wire: [p, bt, m, ctx, want]
   doneV, lastAct
 
-vars == <<up, used, open1, pclosed, hold, recvp, inbox, wire, sendq, bt, bp, rwait, rop, ttl, readable, writable, ops, nextMsg, nreq,
+vars == <<up, used, open1, closed, pclosed, hold, recvp, inbox, wire, sendq, bt, bp, rwait, rop, ttl, readable, writable, ops, nextMsg, nreq,
           lastReq, sentTo, doneV, lastAct>>
 SeqSet(s) == {s[i] : i \in 1..Len(s)}
 Remove(s, x) == SelectSeq(s, LAMBDA y : y # x)
 NOps == Len(ops)
-Live(c) == c = 0 \/ open1
+Live(c) == ~closed /\ (c = 0 \/ open1)
 IdWord(n) == CASE n = 1 -> "i1" [] n = 2 -> "i2" [] n = 3 -> "i3" [] n = 4 -> "i4" [] n = 5 -> "i5" [] OTHER -> "i6"
 HopWords(k) == IF k = 0 THEN <<>> ELSE IF k = 1 THEN <<"h7">> ELSE <<"h7", "h8">>
 
 Init ==
-  /\ up = {} /\ used = {} /\ open1 = FALSE /\ pclosed = {} /\ hold = [p \in Pipes |-> <<>>] /\ recvp = <<>> /\ inbox = [p \in Pipes |-> <<>>]
+  /\ up = {} /\ used = {} /\ open1 = FALSE /\ closed = FALSE /\ pclosed = {} /\ hold = [p \in Pipes |-> <<>>] /\ recvp = <<>> /\ inbox = [p \in Pipes |-> <<>>]
   /\ wire = [p \in Pipes |-> <<>>] /\ sendq = [p \in Pipes |-> <<>>] /\ bt = [c \in Ctxs |-> <<>>] /\ bp = [c \in Ctxs |-> 0]
   /\ rwait = <<>> /\ rop = [c \in Ctxs |-> 0] /\ ttl = 8 /\ readable = FALSE /\ writable = FALSE /\ ops = <<>> /\ nextMsg = 101
   /\ nreq = 0 /\ lastReq = [c \in Ctxs |-> [p |-> 0, bt |-> <<>>]] /\ sentTo = <<>> /\ doneV = <<>> /\ lastAct = [a |-> "init"]
@@ -99,7 +100,7 @@ Recv(c, mode) ==
         ELSE IF mode = "nb" THEN Apply(A, act([rv |-> "eagain", done |-> <<>>]))
         ELSE IF A.rop[c] # 0 THEN Apply(Fin(A, k, "estate", 0), act(0))            \* a second concurrent receive
         ELSE Apply([A EXCEPT !.rwait = Append(@, c), !.rop = [@ EXCEPT ![c] = k]], act(0))
-  /\ UNCHANGED <<used, open1, ttl, nextMsg, nreq>>
+  /\ UNCHANGED <<used, open1, closed, ttl, nextMsg, nreq>>
 Send(c, mode) ==
   /\ Live(c) /\ nextMsg <= 100 + MaxMsgs /\ (mode = "aio" => NOps < MaxOps)
   /\ LET m == nextMsg  k == NOps + 1
@@ -120,29 +121,63 @@ Send(c, mode) ==
         ELSE IF mode = "nb" THEN fin(A, "eagain")
         ELSE Apply([A EXCEPT !.sendq = [@ EXCEPT ![p] = Append(@, [ctx |-> c, op |-> k, m |-> m, bt |-> b])]], act(0))
   /\ nextMsg' = nextMsg + 1
-  /\ UNCHANGED <<used, open1, ttl, nreq>>
+  /\ UNCHANGED <<used, open1, closed, ttl, nreq>>
 Cancel(k) ==
-  /\ k \in 1..NOps /\ ops[k] = "pend"
+  /\ ~closed /\ k \in 1..NOps /\ ops[k] = "pend"
   /\ LET A == [S0 EXCEPT !.rwait = SelectSeq(@, LAMBDA c : rop[c] # k), !.rop = [c \in Ctxs |-> IF rop[c] = k THEN 0 ELSE rop[c]],
                          !.sendq = [p \in Pipes |-> SelectSeq(sendq[p], LAMBDA e : e.op # k)]]
      IN Apply(Fin(A, k, "ecanceled", 0), [a |-> "cancel", op |-> k, out |-> [done |-> <<>>]])
-  /\ UNCHANGED <<used, open1, ttl, nextMsg, nreq>>
+  /\ UNCHANGED <<used, open1, closed, ttl, nextMsg, nreq>>
 SetTtl(n) ==
-  /\ n # ttl /\ ttl' = n
+  /\ ~closed /\ n # ttl /\ ttl' = n
   /\ Apply(S0, [a |-> "setopt", name |-> "ttl-max", val |-> n, out |-> [rv |-> "ok"]])
-  /\ UNCHANGED <<used, open1, nextMsg, nreq>>
+  /\ UNCHANGED <<used, open1, closed, nextMsg, nreq>>
 CtxOpen ==
-  /\ ~open1 /\ open1' = TRUE
+  /\ ~closed /\ ~open1 /\ open1' = TRUE
   /\ Apply(S0, [a |-> "ctx_open", ctx |-> 1, out |-> [rv |-> "ok"]])
+  /\ UNCHANGED <<used, closed, ttl, nextMsg, nreq>>
+\* nng_ctx_close (rep0_ctx_close): the pending receive AND the queued reply of the context complete with NNG_ECLOSED (C10)
+CtxCloseOn(S) ==
+  LET A == IF S.rop[1] # 0 THEN Fin([S EXCEPT !.rwait = Remove(@, 1), !.rop = [@ EXCEPT ![1] = 0]], S.rop[1], "eclosed", 0) ELSE S
+      qs == {p \in Pipes : \E i \in 1..Len(A.sendq[p]) : A.sendq[p][i].ctx = 1}
+      B == IF qs = {} THEN A
+           ELSE LET p == CHOOSE x \in qs : TRUE
+                    e == CHOOSE x \in SeqSet(A.sendq[p]) : x.ctx = 1
+                IN Fin([A EXCEPT !.sendq = [@ EXCEPT ![p] = SelectSeq(@, LAMBDA x : x.ctx # 1)]], e.op, "eclosed", 0)
+  IN [B EXCEPT !.bt = [@ EXCEPT ![1] = <<>>], !.bp = [@ EXCEPT ![1] = 0]]
+CtxClose ==
+  /\ ~closed /\ open1 /\ open1' = FALSE
+  /\ Apply(CtxCloseOn(S0), [a |-> "ctx_close", ctx |-> 1, out |-> [rv |-> "ok", done |-> <<>>]])
+  /\ UNCHANGED <<used, closed, ttl, nextMsg, nreq>>
+\* nng_socket_close: connections are torn down (their queued replies "succeed", discarded), every pending receive completes
+\* with NNG_ECLOSED.  The open context is swept concurrently with the reaper's tear-down of the connections: its queued reply
+\* ends with either result.  Nothing stays pending (C10).
+Close ==
+  /\ ~closed /\ closed' = TRUE /\ open1' = FALSE
+  /\ LET RECURSIVE TearAll(_, _)
+         TearAll(S, ps) == IF ps = {} THEN S ELSE LET p == CHOOSE x \in ps : \A y \in ps : x <= y IN TearAll(Teardown(S, p), ps \ {p})
+         c1q == {p \in Pipes : \E i \in 1..Len(sendq[p]) : sendq[p][i].ctx = 1}
+         \* the context's queued reply: either order
+         A0 == S0
+         A == TearAll(A0, up)
+         c1op == IF c1q = {} THEN 0 ELSE (CHOOSE x \in SeqSet(sendq[CHOOSE p \in c1q : TRUE]) : x.ctx = 1).op
+         A1 == IF c1op = 0 THEN A ELSE [A EXCEPT !.done = (@ \ {[op |-> c1op, rv |-> "ok"]}) \cup {[op |-> c1op, rv |-> "ok|eclosed"]}]
+         RECURSIVE FailR(_, _)
+         FailR(S, cs) == IF cs = {} THEN S ELSE LET c == CHOOSE x \in cs : TRUE IN
+                            FailR(IF S.rop[c] # 0 THEN Fin([S EXCEPT !.rop = [@ EXCEPT ![c] = 0]], S.rop[c], "eclosed", 0) ELSE S, cs \ {c})
+         B == FailR(A1, Ctxs)
+     IN Apply([B EXCEPT !.rwait = <<>>, !.bt = [c \in Ctxs |-> <<>>], !.bp = [c \in Ctxs |-> 0], !.readable = FALSE, !.writable = FALSE,
+                        !.pclosed = {}],
+              [a |-> "close", out |-> [rv |-> "ok"]])
   /\ UNCHANGED <<used, ttl, nextMsg, nreq>>
 
 \* ---------------------------------------------------------------- requesters (environment)
 Connect(p) ==
-  /\ p \notin used /\ used' = used \cup {p}
+  /\ ~closed /\ p \notin used /\ used' = used \cup {p}
   /\ Apply([S0 EXCEPT !.up = @ \cup {p}], [a |-> "connect", p |-> p, out |-> [rv |-> "ok"]])
-  /\ UNCHANGED <<open1, ttl, nextMsg, nreq>>
+  /\ UNCHANGED <<open1, closed, ttl, nextMsg, nreq>>
 Request(p, k, short) ==
-  /\ p \in up /\ p \notin pclosed /\ nextMsg <= 100 + MaxMsgs /\ nreq < 6 /\ Len(inbox[p]) < 2
+  /\ ~closed /\ p \in up /\ p \notin pclosed /\ nextMsg <= 100 + MaxMsgs /\ nreq < 6 /\ Len(inbox[p]) < 2
   /\ LET words == IF short THEN HopWords(k) ELSE HopWords(k) \o <<IdWord(nreq + 1)>>
          x == [bt |-> words, m |-> nextMsg, short |-> short]
          armed == hold[p] = <<>>
@@ -150,7 +185,7 @@ Request(p, k, short) ==
               [a |-> "inject", p |-> p, m |-> nextMsg, hdrw |-> words, short |-> short,
                out |-> [rv |-> IF armed THEN "delivered" ELSE "queued"]])
   /\ nextMsg' = nextMsg + 1 /\ nreq' = nreq + 1
-  /\ UNCHANGED <<used, open1, ttl>>
+  /\ UNCHANGED <<used, open1, closed, ttl>>
 Take(p) ==
   /\ p \in up /\ wire[p] # <<>>
   /\ LET x == Head(wire[p])
@@ -161,19 +196,19 @@ Take(p) ==
                                  !.sentTo = Append(@, [p |-> p, bt |-> e.bt, m |-> e.m, ctx |-> e.ctx, want |-> [p |-> p, bt |-> e.bt]])],
                        e.op, "ok", 0)
      IN Apply(B, [a |-> "take", p |-> p, out |-> [hdr |-> x.bt, m |-> x.m]])
-  /\ UNCHANGED <<used, open1, ttl, nextMsg, nreq>>
+  /\ UNCHANGED <<used, open1, closed, ttl, nextMsg, nreq>>
 PeerClose(p) ==
   /\ p \in up /\ p \notin pclosed
   /\ Apply(Pump([S0 EXCEPT !.pclosed = @ \cup {p}], p), [a |-> "peer_close", p |-> p])
-  /\ UNCHANGED <<used, open1, ttl, nextMsg, nreq>>
+  /\ UNCHANGED <<used, open1, closed, ttl, nextMsg, nreq>>
 \* the application (or the socket, after a failed send) closes the connection
 PipeClose(p) ==
   /\ p \in up
   /\ Apply(Teardown(S0, p), [a |-> "pipe_close", p |-> p])
-  /\ UNCHANGED <<used, open1, ttl, nextMsg, nreq>>
+  /\ UNCHANGED <<used, open1, closed, ttl, nextMsg, nreq>>
 
 Next == \/ (\E c \in Ctxs, md \in {"nb", "aio"} : Recv(c, md) \/ Send(c, md))
-        \/ (\E k \in 1..MaxOps : Cancel(k)) \/ CtxOpen \/ (\E n \in {1, 2, 8} : SetTtl(n))
+        \/ (\E k \in 1..MaxOps : Cancel(k)) \/ CtxOpen \/ CtxClose \/ Close \/ (\E n \in {1, 2, 8} : SetTtl(n))
         \/ (\E p \in Pipes : Connect(p) \/ Take(p) \/ PeerClose(p) \/ PipeClose(p) \/ \E k \in HopCounts : Request(p, k, FALSE) \/ Request(p, k, TRUE))
 Spec == Init /\ [][Next]_vars
 
@@ -183,15 +218,20 @@ ReplyRouting == \A i \in 1..Len(sentTo) : sentTo[i].p = sentTo[i].want.p /\ sent
 \* a held request blocks further reads of that pipe only (one request per connection in flight to the application)
 HoldSound == SeqSet(recvp) = {p \in Pipes : hold[p] # <<>>} /\ \A p \in SeqSet(recvp) : p \in up
 NoLostWakeup == rwait # <<>> => recvp = <<>>
-PollR == readable <=> (recvp # <<>>)
+PollR == ~closed => (readable <=> (recvp # <<>>))
+\* C10: after close nothing is pending
+ClosedIsFinal == closed => (\A i \in 1..Len(ops) : ops[i] = "done") /\ rwait = <<>> /\ up = {} /\ \A p \in Pipes : sendq[p] = <<>>
 \* the socket's own context can send (without blocking) iff it is serving a request whose connection is idle or gone
-PollW == writable <=> (bt[0] # <<>> /\ (bp[0] \notin up \/ wire[bp[0]] = <<>>))
+PollW == ~closed => (writable <=> (bt[0] # <<>> /\ (bp[0] \notin up \/ wire[bp[0]] = <<>>)))
 
-SId == <<up, used, open1, pclosed, hold, recvp, inbox, wire, sendq, bt, bp, rwait, rop, ttl, readable, writable, ops, nextMsg, nreq>>
+SId == <<up, used, open1, closed, pclosed, hold, recvp, inbox, wire, sendq, bt, bp, rwait, rop, ttl, readable, writable, ops, nextMsg, nreq>>
 WireObs == LET RECURSIVE F(_) F(S) == IF S = {} THEN <<>> ELSE LET p == CHOOSE x \in S : \A y \in S : x <= y IN
                   <<<<p, Len(wire[p]), IF hold[p] = <<>> THEN 1 ELSE 0>>>> \o F(S \ {p}) IN F(up)
 Obs == [done |-> doneV, S_pend |-> {}, wire |-> WireObs, pollw |-> writable, pollr |-> readable]
 FinV == 0
-ExportEdge == PrintT(<<"E", ToJson([s |-> SId, sa |-> lastAct, d |-> SId', act |-> lastAct', obs |-> Obs', fin |-> FinV'])>>)
+\* what matters for choosing behaviours to replay (which messages, which operation numbers do not): edge covers by class
+AbsV == <<closed, open1, up, pclosed, [p \in Pipes |-> <<hold[p] # <<>>, Len(inbox[p]), wire[p] # <<>>, [i \in 1..Len(sendq[p]) |-> sendq[p][i].ctx]>>],
+          [c \in Ctxs |-> <<Len(bt[c]), bp[c], rop[c] # 0>>], rwait, ttl, readable, writable>>
+ExportEdge == PrintT(<<"E", ToJson([s |-> SId, sa |-> lastAct, d |-> SId', act |-> lastAct', obs |-> Obs', fin |-> FinV', sabs |-> AbsV, dabs |-> AbsV'])>>)
 View == SId
 =====================================================================
